@@ -13,7 +13,12 @@ use vmodel::schema::*;
 pub fn trees_for(ctx: &Ctx, k_quick: usize, k_thorough: usize) -> (Vec<St>, usize) {
     let k = if ctx.quick() { k_quick } else { k_thorough };
     let en = SchemaEnum::new(k, 3);
-    (en.upto(k), k)
+    let mut trees = en.upto(k);
+    // targeted families beyond the node bound: all pairs of <= 2-node children under every binary
+    // constructor, and wide fan-outs (16, 17, 20, 130 children)
+    trees.extend(pair_family());
+    trees.extend(wide_family());
+    (trees, k)
 }
 
 fn kinds_seen(trees: &[St]) -> (BTreeSet<&'static str>, BTreeSet<&'static str>) {
